@@ -533,13 +533,13 @@ def r86(e: Engine, rep: Report):
     for n in c07.cb_sites(e, g):
         if c07.cb_name(n) != 'AUTH' or len(n.ast.args) < 3:
             continue
-        a = n.ast.args[2]
+        a, afr = common.deref(n.ast.args[2], n.frame)
         ok = False
         if isinstance(a, ast.Name):
             srcs = [s for s in g.of_kind('stmt')
                     if isinstance(s.ast, ast.Assign) and any(
                         isinstance(t, ast.Name) and t.id == a.id
-                        for t in s.ast.targets) and s.frame is n.frame]
+                        for t in s.ast.targets) and s.frame is afr]
             ok = len(srcs) >= 1 and all(
                 isinstance(s.ast.value, ast.Call) and
                 isinstance(s.ast.value.func, ast.Attribute) and
